@@ -102,6 +102,10 @@ def run(chk):
         low = "abcd"
         lines = ["space \\s 0"] + ["lowercase %s %s" % (c, tablegen.dots_text(r.range(1, 63))) for c in low]
         lines += ["base uppercase %s %s" % (c.upper(), c) for c in low]
+        if r.chance(0.4):
+            # base rules chained on base rules (a character based on a character that is itself based on another one)
+            lines += ["lowercase z 1356", "lowercase y 13456", "attribute acute z", "attribute grave y", "base acute \\x00e1 a",
+                      "base grave \\x00e0 \\x00e1", "base uppercase \\x00c0 \\x00e0"][: r.range(6, 7)]
         body = []
         for _ in range(r.range(3, 10)):
             n = r.range(2, 3)
